@@ -60,6 +60,10 @@ extern "C" {
   }
 
   void gpusim_barrier() { sim::barrier(&gpusim::barrierTag, gpusim::blockThreads); }
+  void gpusim_launch_bounds_violation(int kernel, unsigned bx, unsigned by, unsigned bz, const char *declared) {
+    sim::report("launch-bounds", "device kernel %d is launched with a block of %u x %u x %u work items but its translation declares %s",
+                kernel, bx, by, bz, declared);
+  }
 
   float gpusim_atomic_add_float(float *p, float v) {
     uint32_t *u = (uint32_t*) p;
